@@ -176,6 +176,16 @@ Theorem c14_auto_patch_text_undone_partial : forall (f : fs) (root : str) (text 
 Proof. exact auto_patch_text_undone. Qed.
 Print Assumptions c14_auto_patch_text_undone_partial.
 
+(* the other half of the dichotomy: when the checkpoint of the affected paths CANNOT be taken (for a parsed patch
+   that is only possible because an affected path is a directory), the patch does not apply - and a patch that does
+   not apply changes no file (C12's atomicity).  `Patch.wf_fsb` = C12's decidable tree well-formedness. *)
+Theorem c14_auto_patch_no_checkpoint_no_change : forall (f : fs) (root : str) (text : list N) (ops : list Patch.op) (e : N),
+  is_absolute root = true -> Patch.wf_fsb f = true -> Patch.parse_patch text = Some ops ->
+  create f root (Patch.affected_paths ops) = Err e ->
+  exists g e', Patch.apply_patch true [] f text = Patch.Failed g e' /\ forall q, file_at g q = file_at f q.
+Proof. exact auto_patch_text_no_checkpoint. Qed.
+Print Assumptions c14_auto_patch_no_checkpoint_no_change.
+
 (* the full statement (no hypothesis on nesting) is FALSE of the model and of the code - OPEN finding S10j *)
 Definition c14_auto_patch_undone_full : Prop :=
   forall (f : fs) (root : str) (ops : list Patch.op) (g : fs) (c : list (list N)) (ck : list entry),
